@@ -7,7 +7,7 @@ CONSTANTS
   ClearCountsRows = TRUE
   MCModes <- ModesAPS
   MCWidths <- W1
-  MCGaps <- Gaps2
+  MCGaps <- GapsOffBig
   MCFormats <- FmtCustom
   MCMax <- MaxOne
   Ticks <- TicksQ
